@@ -212,6 +212,21 @@ def run_conversions(rep, tier, hs=None):
             rep.fail("C05.c", inst, file, why)
         else:
             rep.ok("C05.c", inst)
+        # C15.pad (declared by C15 only): a Morton/Hilbert buffer has more cells than the copy writes; the padding cells
+        # are read by dump() and by copies, so the whole allocation must be zero-initialised (make_unique<T[]> does it)
+        if "C15.pad" in rep.rules:
+            news = [c for c in s.calls if c.name == "_Znam"]
+            if len(news) == 1:
+                zero = [st for st in s.stores if st.base == ('ret', news[0].n) and st.off == 0 and isinstance(st.val, tuple) and st.val[0] == 'memset'
+                        and st.val[1] == ('ci', 0, 8) and st.size == news[0].args[0] and st.cond == news[0].cond]
+                other = [st for st in s.stores if st.base == ('ret', news[0].n) and st not in zero]
+                if zero or m["dst"].split("_")[0] == "strided":
+                    rep.ok("C15.pad", inst)
+                elif other:
+                    rep.undecided("C15.pad %s: the buffer is initialised in a form that is not a whole-buffer zero fill (%s); not decided" % (inst, ir.show(other[0].val)[:60]))
+                else:
+                    rep.fail("C15.pad", inst, file, "the %s buffer (%s cells) is not zero-initialised as a whole: the copy writes the in-range cells only, so the padding cells stay uninitialised and are read when the field is dumped or copied"
+                             % (m["dst"], "round_pow2(max extent)^N"))
         # C05.d
         nd = [c for c in s.calls if (c.name or "").startswith(relayout.NDMAP)]
         if len(nd) != 1:
